@@ -104,7 +104,7 @@ Proof. trace. Qed.
 
 (** the three property defects that are already repaired in /repo, shown on the model of the old code *)
 Definition old_props : behaviour :=
-  mkBeh true true true true true true true false false false true true true true.
+  mkBeh true true true true true true true false false false true true true true true.
 Example refuted_values : leaves_trace old_props (OSetValues 9 [DInt64; DInt64; DString]).
 Proof. trace. Qed.
 Example refuted_prop_values : leaves_trace old_props (OCreate (Some 8) KProperty "q" "" (XPropV [DInt64; DString])).
@@ -144,6 +144,15 @@ Example refuted_feature_null :
   is_ub (snd (stepW code_today (fst (stepW code_today (base code_today) (ODelete (Some 0) KArray "e"))) (OHas (Some 3) KFeature "a"))) = true /\
   snd (stepW repaired (fst (stepW repaired (base repaired) (ODelete (Some 0) KArray "e"))) (OHas (Some 3) KFeature "a")) = Ok (VBool false).
 Proof. split; vm_compute; reflexivity. Qed.
+(** (C04) Block::deleteSource(handle of a NESTED source) deletes the ROOT source of the same name *)
+Definition ops_ds : list op :=
+  [ OCreate None KBlock "b" "t" XNone; OCreate (Some 0) KSource "a" "t" XNone; OCreate (Some 1) KSource "x" "t" XNone;
+    OCreate (Some 0) KSource "x" "t" XNone ].
+Example refuted_delsource_by_name :
+  map e_oid (ents (fst (stepW code_today (runW code_today empty_db ops_ds) (ODeleteH (Some 0) KSource (HEnt 2))))) = [0; 1; 2] /\
+  map e_oid (ents (fst (stepW repaired (runW repaired empty_db ops_ds) (ODeleteH (Some 0) KSource (HEnt 2))))) = [0; 1; 2; 3].
+Proof. split; vm_compute; reflexivity. Qed.
+
 (** #7 breaks the invariant itself: after the duplicate create the frame's id is no longer its own *)
 Example refuted_df_reidentified :
   exists e, find_ent (fst (stepW code_today (base code_today) (OCreate (Some 0) KFrame "f" "t2" (XFrame [col "c" DInt32])))) 2 = Some e /\
